@@ -36,6 +36,8 @@ ORDINAL_AXES = [
     "PositionsAxis",
 ]
 ALL_AXES = PLAIN_AXES + LINEAR_AXES + ORDINAL_AXES
+# axis classes defined outside abtem/core/axes.py (module path); only used by C35
+EXTRA_AXES = {"PlasmonAxis": "abtem.inelastic.plasmons"}
 
 # which kinds of values a class is given by abTEM's own code
 _VALUE_KINDS = {
@@ -47,6 +49,7 @@ _VALUE_KINDS = {
     "WaveVectorAxis": ["pair", "triple"],
     "TiltAxis": ["pair"],
     "PositionsAxis": ["pair"],
+    "PlasmonAxis": ["quad"],  # (depth, radial angle, azimuthal angle, excitation number)
 }
 
 _LABELS = ["", "x", "y", "thickness", "tilt_x", "C10", "defocus", "x, y", "α", "Δf [Å]", "角度", "semiangle_cutoff"]
@@ -72,6 +75,8 @@ def ordinal_values(draw, cls, n):
         data = [[_num(draw), _num(draw)] for _ in range(n)]
     elif kind == "triple":
         data = [[_num(draw), _num(draw), _num(draw)] for _ in range(n)]
+    elif kind == "quad":
+        data = [[_num(draw), _num(draw), _num(draw), draw(st.integers(0, 3))] for _ in range(n)]
     else:
         data = [_num(draw) for _ in range(n)]
     return {"kind": kind, "data": data}
@@ -83,6 +88,8 @@ def make_values(v):
         return tuple(data)
     if kind in ("pair", "triple"):
         return tuple(tuple(float(x) for x in p) for p in data)
+    if kind == "quad":
+        return tuple((float(p[0]), float(p[1]), float(p[2]), int(p[3])) for p in data)
     if kind == "npfloat64":
         return tuple(np.float64(x) for x in data)
     if kind == "npfloat32":
@@ -101,6 +108,8 @@ def plain_values(v):
     axis is supposed to describe."""
     if v["kind"] in ("pair", "triple"):
         return [tuple(float(x) for x in p) for p in v["data"]]
+    if v["kind"] == "quad":
+        return [(float(p[0]), float(p[1]), float(p[2]), int(p[3])) for p in v["data"]]
     return list(v["data"])
 
 
@@ -149,20 +158,28 @@ def axis_spec(draw, n=None, classes=None, default_bias=0.5):
         classes = classes + ["OrdinalAxis"] * 2
     cls = draw(st.sampled_from(classes))
     if n is None:
-        n = draw(st.integers(0, 5)) if cls in ORDINAL_AXES else draw(st.integers(1, 5))
+        n = draw(st.integers(0, 5)) if cls in _VALUE_KINDS else draw(st.integers(1, 5))
     spec = {"cls": cls, "fields": draw(axis_fields(cls, default_bias)), "n": n}
-    if cls in ORDINAL_AXES:
+    if cls in _VALUE_KINDS:
         spec["values"] = draw(ordinal_values(cls, n))
     return spec
 
 
-def make_axis(spec):
+def axis_class(name):
+    import importlib
+
     from abtem.core import axes
 
+    if name in EXTRA_AXES:
+        return getattr(importlib.import_module(EXTRA_AXES[name]), name)
+    return getattr(axes, name)
+
+
+def make_axis(spec):
     kw = dict(spec["fields"])
     if "values" in spec:
         kw["values"] = make_values(spec["values"])
-    return getattr(axes, spec["cls"])(**kw)
+    return axis_class(spec["cls"])(**kw)
 
 
 def is_ordinal(spec):
@@ -494,6 +511,4 @@ def select(seq, it):
 
 def axis_with_values(aspec, values):
     """The axis of an ordinal spec, but describing ``values`` (plain Python data)."""
-    from abtem.core import axes
-
-    return getattr(axes, aspec["cls"])(**aspec["fields"], values=tuple(values))
+    return axis_class(aspec["cls"])(**aspec["fields"], values=tuple(values))
